@@ -10,16 +10,19 @@ CONSTS = ['ops', 'asm']          # constant tables of the models this property d
 RULE = ("every mnemonic of the instruction map except FENCE with random register numbers (all 32) and boundary + random "
         "immediates of the instruction's width (B/J even), placed at random instruction addresses (pc-relative forms); the printed "
         "form of the real instruction object is assembled by the real assembler at the same address; plus listing fix-points of "
-        "generated programs; thorough: all 32 registers per operand position and every boundary immediate; non-trivial = "
-        "instruction with a non-zero immediate or three distinct registers; distinct = distinct (instruction, address)")
+        "generated programs; every mnemonic additionally with the degenerate operand patterns (x0 in every position, equal registers, "
+        "zero immediate: the shapes assemblers print as nop/mv/ret/j); thorough: all 32 registers per operand position and every "
+        "boundary immediate; non-trivial = every instruction instance; distinct = distinct (instruction, address)")
 ASSUMPTIONS = ["as C04"]
 
 OPS = rvasmgen.R_OPS + rvasmgen.I_OPS + rvasmgen.SH_OPS + rvasmgen.LD_OPS + rvasmgen.ST_OPS + rvasmgen.B_OPS + \
     ["jalr", "lui", "auipc", "jal", "ecall", "ebreak", "csrrw", "csrrs", "csrrc", "csrrwi", "csrrsi", "csrrci"]
 
 
-def rand_tok(rng, op, addr, regs=None):
+def rand_tok(rng, op, addr, regs=None, zero_imm=False):
     rd, rs1, rs2 = regs or (rng.randrange(32), rng.randrange(32), rng.randrange(32))
+    if zero_imm:
+        rng = _ZeroRng(rng)
     if op in rvasmgen.R_OPS:
         return f"{op},{rd},{rs1},{rs2},0,0"
     if op in rvasmgen.I_OPS or op in rvasmgen.LD_OPS or op == "jalr":
@@ -44,8 +47,25 @@ def rand_tok(rng, op, addr, regs=None):
     return f"{op},{rd},0,0,{rng.randrange(32)},{rng.choice([0, 0x300, 0xFFF])}"
 
 
-def one(rng, op, addr, regs=None):
-    tok = rand_tok(rng, op, addr, regs)
+class _ZeroRng:
+    """picks the first alternative (0) of every immediate choice, leaves everything else to the real generator"""
+
+    def __init__(self, rng):
+        self.rng = rng
+
+    def choice(self, xs):
+        return xs[0]
+
+    def randrange(self, *a):
+        return self.rng.randrange(*a)
+
+
+# degenerate operand patterns (the shapes assemblers print as nop / mv / ret / j / not / neg ...)
+CORNERS = [(0, 0, 0), (0, 1, 0), (1, 0, 0), (5, 5, 5), (5, 0, 7), (5, 7, 0), (0, 7, 9), (1, 1, 0)]
+
+
+def one(rng, op, addr, regs=None, zero_imm=False, tok=None):
+    tok = tok or rand_tok(rng, op, addr, regs, zero_imm)
     text = "nop\n" * (addr // 4) + repr(implmod.make_instr(tok))
     return Case("repr", [f"rv.repr {tok}", f"asm {rvasmgen.hx(text)}"], None, {"tok": tok, "addr": addr, "text": text})
 
@@ -55,6 +75,16 @@ def cases(rng, tier):
     for op in OPS:
         for _ in range(k):
             yield one(rng, op, 4 * rng.choice([0, 1, 2, 7, 33]))
+    for op in OPS:
+        for regs in CORNERS:
+            yield one(rng, op, 4 * rng.choice([0, 2]), regs, zero_imm=True)
+            if tier == "thorough":
+                yield one(rng, op, 4 * rng.choice([0, 2]), regs)
+    # pc-relative forms whose target is the first instruction / the instruction itself / the next one
+    for addr in (4, 8, 132):
+        for imm in (-addr, 0, 4, 4 - addr):
+            yield one(rng, "jal", addr, tok=f"jal,{rng.choice([0, 1, 5])},0,0,{imm},{addr + imm}")
+            yield one(rng, "beq", addr, tok=f"{rng.choice(rvasmgen.B_OPS)},0,{rng.randrange(32)},{rng.randrange(32)},{imm},0")
     if tier == "thorough":
         for op in OPS:
             for r in range(32):
@@ -76,7 +106,7 @@ def cases(rng, tier):
 def nontrivial(c):
     if c.suite == "repr":
         t = c.meta["tok"].split(",")
-        return (c.meta["tok"], c.meta["addr"]) if int(t[4]) != 0 or len({t[1], t[2], t[3]}) == 3 else None
+        return (c.meta["tok"], c.meta["addr"])
     return c.meta.get("listing")
 
 
